@@ -127,7 +127,7 @@ def parse_uri_unit(name, nq, nt, extra, bound, thorough_only=False, timeout=(600
     d = {'N': nq, 'PREALLOC': 0, 'C13_MEMCHR_MODEL': 1, 'C13_BSTR_MODEL': 1}
     d.update(extra)
     UNITS.append(U(
-        name=name, props=['C13'], kind='bounded', src=['htp_util.c'], replay='vin',
+        name=name, props=['C13'] + (['C02'] if name == 'ref_parse_uri' else []), kind='bounded', src=['htp_util.c'], replay='vin',
         contracts_inc=['uri_ref.h', 'c13_uri.h'], harness=PARSE_URI_H,
         defs={'quick': d, 'thorough': {'N': nt}},
         flags_add=['--unwind', str(unwind or (max(nt, 8) + 3)), '--unwinding-assertions', '--memory-leak-check'],
